@@ -382,7 +382,7 @@ func checkPgMsg(kind string, b []byte, honorKnown bool) string {
 var pgKinds = []string{"bind", "parse", "execute", "describe", "query", "password", "copyfail", "copydata", "sync", "flush", "terminate"}
 
 func TestPgsqlFrontendMessages(t *testing.T) {
-	vk.Check(t, 60000, 3000000, func(rt *rapid.T, c *vk.Case) {
+	vk.Check(t, 40000, 1500000, func(rt *rapid.T, c *vk.Case) {
 		msg := genPgMsg(rt)
 		b, desc, single := mutate(rt, msg.l)
 		kind := msg.kind
